@@ -40,7 +40,14 @@ let ostr (s : M.string) : string =
   let rec go = function M.EmptyString -> () | M.String (a, r) -> Buffer.add_char b (char_of_ascii a); go r in
   go s; Buffer.contents b
 
-let q_of (num : int) (den : int) : M.q = { M.qnum = z_of_int num; M.qden = pos_of_int den }
+(* decimal text of any size -> binary number, through the extracted line parser (`#<digits>` is a time line):
+   simulation times are uint64 rationals whose denominators can exceed OCaml's 63 bit integers *)
+let n_of_dec (s : string) : M.n =
+  match M.parse_line (cstr ("#" ^ s)) with M.LTime n -> n | _ -> failwith ("bad number " ^ s)
+let q_of (num : string) (den : string) : M.q =
+  let zn = match n_of_dec num with M.N0 -> M.Z0 | M.Npos p -> M.Zpos p in
+  let pd = match n_of_dec den with M.N0 -> failwith "zero denominator" | M.Npos p -> p in
+  { M.qnum = zn; M.qden = pd }
 
 let read_lines (f : string) : string list =
   let ic = open_in_bin f in
@@ -74,7 +81,7 @@ let run_vcd trace vcd outbody maxticks =
     | "sig" :: _ :: w :: bvec :: _ :: rest ->
         decls := ((nat_of_int (int_of_string w), bvec = "1"), cstr (String.concat " " rest)) :: !decls
     | "code" :: k :: _ -> pending_codes := int_of_string k :: !pending_codes; incr ncodes
-    | "T" :: [a; b] -> evs := M.EvTick (q_of (int_of_string a) (int_of_string b)) :: !evs
+    | "T" :: [a; b] -> evs := M.EvTick (q_of a b) :: !evs
     | "B" :: [k; v] -> evs := M.EvBit (M.ident (nat_of_int (int_of_string k)), v = "1") :: !evs
     | "R" :: rest -> evs := M.EvRaw (cstr (String.concat " " rest)) :: !evs
     | "C" :: vals -> evs := M.EvCommit (List.map rvec_of_text vals) :: !evs
@@ -133,13 +140,13 @@ let run_tv log out =
   let cbs = List.filter_map (fun line ->
     match split line with
     | ["PowerOn"] -> Some M.CbPowerOn
-    | ["NewPhase"; p; a; b] -> Some (M.CbNewPhase (phase_of_int (int_of_string p), q_of (int_of_string a) (int_of_string b)))
+    | ["NewPhase"; p; a; b] -> Some (M.CbNewPhase (phase_of_int (int_of_string p), q_of a b))
     | ["AMT"] -> Some M.CbAfterMicroTick
     | ["Commit"] -> Some M.CbCommit
     | ["Reset"; n; v] -> Some (M.CbReset (cstr n, v = "1"))
     | ["Set"; n; v] -> Some (M.CbSet (cstr n, bv_of_text v))
     | ["Read"; n; b; v] -> Some (M.CbRead (cstr n, b = "1", rvec_of_text v))
-    | ["Destroy"; a; b] -> Some (M.CbDestroy (q_of (int_of_string a) (int_of_string b)))
+    | ["Destroy"; a; b] -> Some (M.CbDestroy (q_of a b))
     | [] -> None
     | _ -> failwith ("bad tvlog line: " ^ line)) (read_lines log) in
   let oc = open_out_bin out in
